@@ -190,6 +190,9 @@ class Oracle:
 
         args = []
         for p in params:
+            if p.kind == "list":
+                args.append([self.sample_args([item], boundary)[0] for item in p.operands])
+                continue
             t = str(p.operands[1])
             if t in ("float", "float64"):
                 args.append(dbl())
